@@ -7,6 +7,8 @@ Structural facts selecting the variant of the inspection model:
                     (vs. adjacent nodes only, skipping pairs around context-only nodes)
   origin_last     : key_origin records the last creator (vs. setdefault = first creator)
   deleted_at_entry: deleted-key check against the keys deleted before the node
+  default_second_pass: after the node loop, default-classified parameters whose name is a required
+                    context key and was not deleted before the node are re-classified as context-supplied
 """
 import ast
 
@@ -15,9 +17,50 @@ from harness.translate import TranslationError, find_def, parse
 
 OUT = "InspectGen.v"
 FALLBACK = """From SV Require Import Model.Inspect.
-Definition impl : variant := mkVariant false false false false.
+Definition impl : variant := mkVariant false false false false false.
 Definition translation_failed := true.
 """
+
+
+SECOND_PASS = """for node_inspection, deleted_at_entry in defaulted:
+    for name in list(node_inspection.default_params):
+        if name in all_required_params and name not in deleted_at_entry:
+            del node_inspection.default_params[name]
+            node_inspection.config_params.pop(name, None)
+            node_inspection.context_params[name] = None"""
+
+
+def second_pass_fact(fn):
+    """True iff build_pipeline_inspection re-classifies shadowed defaults after the node loop, in exactly the
+    modelled shape; False iff nothing of the kind exists; anything else fails closed."""
+    main = [n for n in fn.body if isinstance(n, ast.For) and ast.unparse(n.iter).startswith("enumerate(")]
+    if len(main) != 1:
+        raise TranslationError("build_pipeline_inspection: main node loop not found")
+    after = fn.body[fn.body.index(main[0]) + 1:]
+    loops = [n for n in after if isinstance(n, (ast.For, ast.While))]
+    src = ast.unparse(fn)
+    mentions = "defaulted" in src or any("default_params" in ast.unparse(n) for n in after if not isinstance(n, ast.Return))
+    if not loops:
+        if mentions:
+            raise TranslationError("build_pipeline_inspection: default_params touched after the node loop in an unknown way")
+        return False
+    if len(loops) != 1 or ast.unparse(loops[0]) != SECOND_PASS:
+        raise TranslationError("build_pipeline_inspection: unknown loop after the node loop")
+    body = ast.unparse(main[0])
+    tail = "inspection_nodes.append(node_inspection)\n    if default_params:\n        defaulted.append((node_inspection, deleted_at_entry))"
+    if not body.rstrip().endswith(tail) or body.count("defaulted") != 1:
+        raise TranslationError("build_pipeline_inspection: defaulted list is not filled at the end of the node loop")
+    if src.count("defaulted") != 3 or "defaulted: List[tuple[NodeInspection, set[str]]] = []" not in src:
+        raise TranslationError("build_pipeline_inspection: defaulted list used in an unknown way")
+    if "deleted_at_entry = set(deleted_keys)" not in body or body.index("deleted_at_entry = set(deleted_keys)") > body.index("for key in created_keys:"):
+        raise TranslationError("build_pipeline_inspection: deleted_at_entry is not the set of keys deleted before the node")
+    # nothing between the second pass and the return may touch the reports again
+    rest = after[after.index(loops[0]) + 1:]
+    for n in rest:
+        t = ast.unparse(n)
+        if ("node_inspection" in t or "inspection_nodes" in t) and not isinstance(n, ast.Return):
+            raise TranslationError("build_pipeline_inspection: reports modified after the second pass")
+    return True
 
 
 def translate():
@@ -57,6 +100,8 @@ def translate():
     if "key_origin[node.context_key] = index" not in src:
         raise TranslationError("build_pipeline_inspection: probe key origin not overwritten")
 
+    second_pass = second_pass_fact(fn)
+
     vtree, p2 = parse("semantiva/inspection/validator.py")
     vf = find_def(vtree, "_validate_data_flow_compatibility", ast.FunctionDef)
     vsrc = ast.unparse(vf)
@@ -75,7 +120,7 @@ def translate():
         raise TranslationError("_is_compatible: unknown rule")
     text = """(* GENERATED from semantiva/inspection/builder.py and validator.py — do not edit *)
 From SV Require Import Model.Inspect.
-Definition impl : variant := mkVariant %s %s %s %s.
+Definition impl : variant := mkVariant %s %s %s %s %s.
 Definition translation_failed := false.
-""" % (cq_bool(order_sensitive), cq_bool(track_last), cq_bool(origin_last), cq_bool(at_entry))
+""" % (cq_bool(order_sensitive), cq_bool(track_last), cq_bool(origin_last), cq_bool(at_entry), cq_bool(second_pass))
     return text, [p1, p2]
